@@ -262,6 +262,24 @@ def audit(prop: str) -> dict:
 # --------------------------------------------------------------------------- verdict context
 
 
+class quiet_stdout:
+    """Redirect file descriptor 1 to /dev/null while the real code runs (progress bars, warnings printed by the
+    simulator); the check's own result lines are printed after the redirect is undone."""
+
+    def __enter__(self):
+        sys.stdout.flush()
+        self.saved = os.dup(1)
+        self.null = os.open(os.devnull, os.O_WRONLY)
+        os.dup2(self.null, 1)
+        return self
+
+    def __exit__(self, *a):
+        sys.stdout.flush()
+        os.dup2(self.saved, 1)
+        os.close(self.saved)
+        os.close(self.null)
+
+
 class Ctx:
     """Counters, disagreements and violations of one run of one check."""
 
@@ -387,7 +405,8 @@ def _replay(prop, module, data: dict) -> int:
         return module.replay(data)
     ctx = Ctx(prop, data.get("tier", "quick"), int(data.get("seed", 0)))
     ctx.driver_ok = DRIVER.exists()
-    module.run(ctx)
+    with quiet_stdout():
+        module.run(ctx)
     want = {(v["site"], v["class"]) for v in data.get("violations", [])}
     got = {(v["site"], v["class"]) for v in ctx.violations}
     for v in ctx.violations:
@@ -436,13 +455,15 @@ def _run(prop, module, ctx: Ctx, t0, ev_path: Path) -> int:
             raise InfraError("leanchecker rejected the property module: " + (p.stdout + p.stderr)[-500:])
     ctx.driver_ok = driver_ok
     # corpus first, then correspondence + oracle on the real code
-    module.run(ctx)
+    with quiet_stdout():
+        module.run(ctx)
     if ctx.disagreements:
         names = sorted({d["what"] for d in ctx.disagreements})
         broken += [f"correspondence {n}" for n in names]
     if (broken or ctx.disagreements) and not ctx.violations and hasattr(module, "search"):
         # failing-input search on the real code
-        module.search(ctx)
+        with quiet_stdout():
+            module.search(ctx)
     # ---- verdict
     known = [k for k in load_known() if k.get("property") == prop and k.get("status") == "known"]
     reported = []
